@@ -97,7 +97,9 @@ var offenders = []offender{
 	{"pval-argc0", true, true, func() *gen.Node { return gen.NCall("pval") }},
 	{"pval-argc2", true, true, func() *gen.Node { return gen.NCall("pval", i64(1), i64(2)) }},
 	{"probe-missing-label", false, true, func() *gen.Node { return gen.NCall("probe") }},
-	{"pval-unknown-name", false, true, func() *gen.Node { return gen.NCall("pval", gen.NAssign("=", []*gen.Node{id("zz")}, []*gen.Node{i64(1)})) }},
+	{"pval-unknown-name", false, true, func() *gen.Node {
+		return gen.NCall("pval", gen.NAssign("=", []*gen.Node{id("zz")}, []*gen.Node{i64(1)}))
+	}},
 	{"pvoid-surplus-arg", false, true, func() *gen.Node { return gen.NCall("pvoid", i64(1)) }},
 	{"probe-named-with-variadic", false, true, func() *gen.Node {
 		return gen.NCall("probe", gen.NAssign("=", []*gen.Node{id("label")}, []*gen.Node{str("x")}))
@@ -329,9 +331,11 @@ func tableFns(tab []fdef) (map[string]*runtimev2.Fn, string) {
 	for _, f := range tab {
 		params := f.params
 		fns[f.name] = &runtimev2.Fn{
-			CallCheck: func(ctx *runtimev2.Task, e *ast.CallExpr) *errchain.PlError { return runtimev2.CheckPassParam(ctx, e, params) },
-			Call:      func(ctx *runtimev2.Task, e *ast.CallExpr) *errchain.PlError { return nil },
-			Desc:      runtimev2.FnDesc{Name: f.name, Params: params},
+			CallCheck: func(ctx *runtimev2.Task, e *ast.CallExpr) *errchain.PlError {
+				return runtimev2.CheckPassParam(ctx, e, params)
+			},
+			Call: func(ctx *runtimev2.Task, e *ast.CallExpr) *errchain.PlError { return nil },
+			Desc: runtimev2.FnDesc{Name: f.name, Params: params},
 		}
 		desc = append(desc, runtimev2.FnDesc{Name: f.name, Params: params}.Signature())
 	}
